@@ -6,7 +6,7 @@
    (Generated once by lib/cap.py from the capture; the per-run instances are regenerated from /repo
    on every check.) *)
 From Coq Require Import List NArith.
-From LogosV Require Import Engine.Model Engine.Cert Engine.Build Engine.Run Properties.All.
+From LogosV Require Import Engine.Model Engine.Cert Engine.Build Engine.Run Engine.GraphBuild Engine.ByteClass Engine.Prog Engine.Dedup Properties.All.
 Import ListNotations.
 Open Scope N_scope.
 
@@ -50,4 +50,23 @@ Example ex_partial_a : run_ref ex_g true [0;0;0] true [97] = [2;0;0].
 Proof. vm_compute. reflexivity. Qed.
 (* partial mode on "ab": the error and the token are determined by the prefix and are committed *)
 Example ex_partial_ab : run_ref ex_g true [0;0;0] true [97;98] = [0;0;0;1;0;0; 1;2;1;2;0;3; 2;2;2].
+Proof. vm_compute. reflexivity. Qed.
+
+(* ---------- the certificate-free routes on the same definition ---------- *)
+(* the modelled Graph::new (passes 1-4, then the de-duplication loop) against the captured graph;
+   the relation is the pairing read backwards *)
+Definition ex_Vs := mk_pairing [(24, [0]); (40, [1]); (48, [2]); (56, [3]); (64, [4]); (72, [5])].
+Example ex_build_side : build_side ex_d = true. Proof. vm_compute. reflexivity. Qed.
+Example ex_gsim : gsim_ok (build ex_d) ex_g ex_Vs = true. Proof. vm_compute. reflexivity. Qed.
+Example ex_gsim_dedup : gsim_ok (dedup (build ex_d)) ex_g ex_Vs = true. Proof. vm_compute. reflexivity. Qed.
+Definition ex_C01_built := C01_maximal_munch_built ex_d ex_g ex_Vs ex_build_side ex_gsim.
+Definition ex_C01_full := C01_full_construction_correct ex_d ex_g ex_Vs ex_build_side ex_gsim_dedup.
+
+(* the program parsed by lib/genparse.py from the code the tail-call generator emits for LookEnd *)
+Definition ex_p := mk_prog [[0; 0; 0; 0; 0; 0; 0; 0; 0; 0; 0; 0; 0; 0; 0; 0; 0; 0; 0; 0; 0; 0; 0; 0; 0; 0; 0; 0; 0; 0; 0; 0; 0; 0; 0; 0; 0; 0; 0; 0; 0; 0; 0; 0; 0; 0; 0; 0; 0; 0; 0; 0; 0; 0; 0; 0; 0; 0; 0; 0; 0; 0; 0; 0; 0; 0; 0; 0; 0; 0; 0; 0; 0; 0; 0; 0; 0; 0; 0; 0; 0; 0; 0; 0; 0; 0; 0; 0; 0; 0; 0; 0; 0; 0; 0; 0; 0; 1; 0; 0; 0; 0; 0; 0; 0; 0; 0; 0; 0; 0; 0; 0; 0; 0; 0; 0; 0; 0; 0; 0; 0; 0; 0; 0; 0; 0; 0; 0; 0; 0; 0; 0; 0; 0; 0; 0; 0; 0; 0; 0; 0; 0; 0; 0; 0; 0; 0; 0; 0; 0; 0; 0; 0; 0; 0; 0; 0; 0; 0; 0; 0; 0; 0; 0; 0; 0; 0; 0; 0; 0; 0; 0; 0; 0; 0; 0; 0; 0; 0; 0; 0; 0; 0; 0; 0; 0; 0; 0; 0; 0; 0; 0; 0; 0; 0; 0; 0; 0; 0; 0; 0; 0; 0; 0; 0; 0; 0; 0; 0; 0; 0; 0; 0; 0; 0; 0; 0; 0; 0; 0; 0; 0; 0; 0; 0; 0; 0; 0; 0; 0; 0; 0; 0; 0; 0; 0; 0; 0; 0; 0; 0; 0; 0; 0; 0; 0; 0; 0; 0; 0; 0; 0; 0; 0; 0; 0]] [(1%positive, {| p_loop := None; p_setup := PAccept 0; p_fork := PChain []; p_prefix := false; p_roottest := false; p_eoi := None |}); (2%positive, {| p_loop := None; p_setup := PNoSetup; p_fork := PChain [(PCmp [{| c_lo := 97; c_hi := 97; c_ex := [] |}], 5%positive); (PCmp [{| c_lo := 98; c_hi := 98; c_ex := [] |}], 6%positive)]; p_prefix := true; p_roottest := true; p_eoi := None |}); (3%positive, {| p_loop := Some (0, 1); p_setup := PNoSetup; p_fork := PChain [(PCmp [{| c_lo := 99; c_hi := 99; c_ex := [] |}], 4%positive)]; p_prefix := true; p_roottest := false; p_eoi := None |}); (4%positive, {| p_loop := None; p_setup := PEarly 2; p_fork := PChain []; p_prefix := false; p_roottest := false; p_eoi := None |}); (5%positive, {| p_loop := None; p_setup := PNoSetup; p_fork := PChain [(PCmp [{| c_lo := 97; c_hi := 97; c_ex := [] |}], 3%positive); (PCmp [{| c_lo := 99; c_hi := 99; c_ex := [] |}], 4%positive)]; p_prefix := true; p_roottest := false; p_eoi := Some 1%positive |}); (6%positive, {| p_loop := None; p_setup := PEarly 1; p_fork := PChain []; p_prefix := false; p_roottest := false; p_eoi := None |})] 2%positive 2%positive.
+Example ex_prog_ok : prog_ok ex_g ex_p = true. Proof. vm_compute. reflexivity. Qed.
+Definition ex_C06_emitted := fun U isprefix start rest => C06_emitted_is_ref U ex_g ex_p isprefix start rest ex_prog_ok ex_wf_graph.
+Definition ex_C01_emitted := fun U => C01_emitted_code_maximal_munch U ex_d ex_g ex_Vs ex_p ex_build_side ex_gsim_dedup ex_wf_graph ex_prog_ok.
+(* the parsed program run on "aac": the same regions as the reference semantics above *)
+Example ex_run_prog_aac : run_prog 8 ex_p 6 true [0;0;0] false [97;97;99] = [1;3;0;3;0;0; 2;3;3].
 Proof. vm_compute. reflexivity. Qed.
